@@ -9,6 +9,8 @@ import (
 	"context"
 	"fmt"
 	"net/http"
+	"regexp"
+	"runtime"
 	"sort"
 	"strings"
 	"sync"
@@ -32,11 +34,13 @@ type LStep struct {
 	// release the I-th parked handler returns
 	// cclose / sclose     ClientSession.Close / ServerSession.Close (N goroutines at once)
 	// sleep   advance virtual time
-	// cut     the link dies (pipes: one end closes; HTTP: every open body is cut and every later exchange fails)
+	// cut     the link dies (pipes: one end closes; HTTP: every later exchange fails and every open body is cut,
+	//         or - Silent - stays open without ever carrying another byte from the client's point of view)
 	Kind   string `json:"kind"`
 	Nested string `json:"nested,omitempty"` // ccall: "", ping, roots, sample
 	Method string `json:"method,omitempty"` // scall: ping, roots, sample
 	Side   string `json:"side,omitempty"`   // cut on inmem/pipe: whose end vanishes
+	Silent bool   `json:"silent,omitempty"` // cut on HTTP links: later exchanges fail but the open response bodies just stay silent (no reset)
 	I      int    `json:"i,omitempty"`
 	N      int    `json:"n,omitempty"` // close: 1 or 2 concurrent calls
 	Ms     int    `json:"ms,omitempty"`
@@ -130,7 +134,7 @@ func genLinks(rt *rapid.T) LScript {
 	if rapid.IntRange(0, 3).Draw(rt, "cut") == 0 {
 		// the link dies once, at a drawn position
 		at := rapid.IntRange(0, len(s.Steps)).Draw(rt, "cutat")
-		st := LStep{Kind: "cut", Side: rapid.SampledFrom([]string{"client", "server"}).Draw(rt, "side")}
+		st := LStep{Kind: "cut", Side: rapid.SampledFrom([]string{"client", "server"}).Draw(rt, "side"), Silent: rapid.IntRange(0, 2).Draw(rt, "silent") == 0}
 		s.Steps = append(s.Steps[:at], append([]LStep{st}, s.Steps[at:]...)...)
 	}
 	return s
@@ -258,6 +262,44 @@ func (w *lworld) see(ss *mcp.ServerSession) {
 	w.start("wait", fmt.Sprintf("Wait of server session #%d", n), nil, ss.Wait)
 }
 
+var linksBubbleRE = regexp.MustCompile(`synctest bubble (\d+)`)
+
+// bubbleGoroutines returns the untrimmed stacks of the other goroutines of the calling goroutine's bubble
+// (vt.LiveBubbleGoroutines trims each stack to its innermost frames, which hides who started a blocked read).
+func bubbleGoroutines() []string {
+	buf := make([]byte, 1<<20)
+	for {
+		n := runtime.Stack(buf, true)
+		if n < len(buf) {
+			buf = buf[:n]
+			break
+		}
+		buf = make([]byte, 2*len(buf))
+	}
+	gs := strings.Split(string(buf), "\n\n")
+	if len(gs) == 0 {
+		return nil
+	}
+	first := func(g string) string {
+		if i := strings.IndexByte(g, '\n'); i >= 0 {
+			return g[:i]
+		}
+		return g
+	}
+	m := linksBubbleRE.FindStringSubmatch(first(gs[0])) // the first goroutine of the dump is the caller
+	if m == nil {
+		return nil
+	}
+	tag := "synctest bubble " + m[1] + "]"
+	var out []string
+	for _, g := range gs[1:] {
+		if strings.Contains(first(g), tag) {
+			out = append(out, g)
+		}
+	}
+	return out
+}
+
 type tapTransport struct {
 	mcp.Transport
 	conn mcp.Connection
@@ -366,7 +408,7 @@ func runLinksInBubble(s LScript) (res vt.Result) {
 	var clientTransport mcp.Transport
 	var httpT *memhttp.Transport
 	var failing atomic.Bool
-	var cutLink func(side string)
+	var cutLink func(side string, silent bool)
 	switch s.Link.Kind {
 	case wire.InMem:
 		st, ct := mcp.NewInMemoryTransports()
@@ -376,7 +418,7 @@ func runLinksInBubble(s LScript) (res vt.Result) {
 			return
 		}
 		clientTransport = ctap
-		cutLink = func(side string) {
+		cutLink = func(side string, _ bool) {
 			// the process holding that end is gone: its end of the in-memory connection closes
 			if side == "server" && stap.conn != nil {
 				stap.conn.Close()
@@ -391,7 +433,7 @@ func runLinksInBubble(s LScript) (res vt.Result) {
 			return
 		}
 		clientTransport = &mcp.IOTransport{Reader: b, Writer: b}
-		cutLink = func(side string) {
+		cutLink = func(side string, _ bool) {
 			if side == "server" {
 				a.Close()
 			} else {
@@ -411,8 +453,11 @@ func runLinksInBubble(s LScript) (res vt.Result) {
 			}
 			return nil
 		}
-		cutLink = func(string) {
+		cutLink = func(_ string, silent bool) {
 			failing.Store(true)
+			if silent {
+				return
+			}
 			for _, e := range httpT.Exchanges() {
 				if !e.HandlerDone() {
 					e.Cut(memhttp.ErrCut)
@@ -512,6 +557,13 @@ func runLinksInBubble(s LScript) (res vt.Result) {
 	}
 
 	// check evaluates the clauses that can be judged at any quiescent moment.
+	reported := map[string]bool{}
+	failOnce := func(key, format string, a ...any) {
+		if !reported[key] {
+			reported[key] = true
+			res.Failf(format, a...)
+		}
+	}
 	check := func(step string) {
 		w.mu.Lock()
 		defer w.mu.Unlock()
@@ -532,7 +584,7 @@ func runLinksInBubble(s LScript) (res vt.Result) {
 			if (peer != 0 && peer < h.doneClock) || (w.cutClock != 0 && w.cutClock < h.doneClock) || (w.cancelClock != 0 && w.cancelClock < h.doneClock) {
 				continue
 			}
-			res.Failf("%s: the %s handler %d was already running when Close was called on its own %s session; its context was then cancelled (cause: %s) although the peer had not closed, the link was healthy (%s) and its caller had not given up: a graceful Close must let running handlers finish", step, h.side, h.k, h.side, h.cause, s.Link)
+			failOnce(fmt.Sprintf("h%s%d", h.side, h.k), "%s: the %s handler %d was already running when Close was called on its own %s session; its context was then cancelled (cause: %s) although the peer had not closed, the link was healthy (%s) and its caller had not given up: a graceful Close must let running handlers finish", step, h.side, h.k, h.side, h.cause, s.Link)
 		}
 		// (3) nothing is dispatched to a handler on a side after Close has returned on that side
 		for _, d := range w.dispatch {
@@ -541,7 +593,7 @@ func runLinksInBubble(s LScript) (res vt.Result) {
 				ret = w.serverCloseRet[d.sess]
 			}
 			if ret != 0 && d.clock > ret {
-				res.Failf("%s: %q was dispatched to the %s's receiving handler after Close had returned on that %s session (link %s)", step, d.method, d.side, d.side, s.Link)
+				failOnce(fmt.Sprintf("d%d", d.clock), "%s: %q was dispatched to the %s's receiving handler after Close had returned on that %s session (link %s)", step, d.method, d.side, d.side, s.Link)
 			}
 		}
 	}
@@ -663,8 +715,11 @@ func runLinksInBubble(s LScript) (res vt.Result) {
 				w.cutClock = w.tick()
 			}
 			w.mu.Unlock()
-			cutLink(st.Side)
+			cutLink(st.Side, st.Silent)
 			desc.WriteString("X")
+			if st.Silent && isHTTP {
+				classes["cut_silent"] = true
+			}
 		}
 		synctest.Wait()
 		check(fmt.Sprintf("step %d (%s)", i, st.Kind))
@@ -752,8 +807,25 @@ func runLinksInBubble(s LScript) (res vt.Result) {
 		}
 		synctest.Wait()
 	}
+	w.mu.Lock()
+	finalClient := len(w.blockers) // index of the blocker created next
+	w.mu.Unlock()
 	doClose("client", nil, 1, "final ")
 	synctest.Wait()
+	time.Sleep(2 * time.Minute)
+	synctest.Wait()
+	w.mu.Lock()
+	clientDown := w.blockers[finalClient].returned()
+	w.mu.Unlock()
+	if clientDown {
+		// ClientSession.Close has returned (whatever the server does from here on, it is still up): nothing the
+		// client's HTTP connection started may still be running - hanging GET readers, reconnection loops, timers.
+		for _, g := range bubbleGoroutines() {
+			if strings.Contains(g, "mcp.(*streamableClientConn)") || strings.Contains(g, "mcp.(*sseClientConn)") || strings.Contains(g, "mcp.(*SSEClientTransport)") {
+				res.Failf("2 minutes after ClientSession.Close returned a goroutine of the client's connection is still alive (link %s, cut=%v):\n%s", s.Link, wasCut, g)
+			}
+		}
+	}
 	for _, ss := range sessions() {
 		doClose("server", ss, 1, "final ")
 	}
